@@ -301,7 +301,7 @@ def rule_typestate(m):
                 res.fail(Finding('F-TS', f.display(), 'iterator comparison', f.where(),
                                  'list iterators of possibly different lists are compared: the vertex must be compared first '
                                  'and short-circuit the comparison'))
-    res.require_sites(45, 'invalidation sites')
+    res.require_sites(22, 'invalidation sites')
     return res
 
 
